@@ -7,7 +7,8 @@ RULE = ('structured lattice: every day of the four year types (common, leap, cen
         'of the range-end years x month counts {0,1,11,12,13,4800,i32::MAX,i32::MAX+1,u32::MAX,...}; every '
         'setter x ~50 arguments (whole valid range, 0, end+1, type extremes) on the month-end/leap-day lattice; '
         'all 7 first weekdays on every day; n-th weekday over months 0..13 x n in {0..6,255}; date pairs around '
-        'the anniversary; plus seeded random draws over the whole range (thorough: all 146097 days of a 400-year cycle)')
+        'the anniversary; operator month stepping and the provided Datelike methods on naive date-times, week equality/hash on '
+        'neighbouring days and first weekdays; plus seeded random draws over the whole range (thorough: all 146097 days of a 400-year cycle)')
 
 MIN_YEAR, MAX_YEAR = -262143, 262142
 FIELDS = ['year', 'month', 'month0', 'day', 'day0', 'ordinal', 'ordinal0']
@@ -158,6 +159,8 @@ def cases(tier, rng):
         for n in (0, 1, 11, 12, 13, 4800, I32_MAX, I32_MAX + 1, U32_MAX):
             yield case_line('d8.ndt.addm', nd, n)
             yield case_line('d8.ndt.subm', nd, n)
+            yield case_line('d8.ndt.opaddm', nd, n)
+            yield case_line('d8.ndt.opsubm', nd, n)
 
     # ---- field replacement
     lat_edges = []
@@ -190,6 +193,8 @@ def cases(tier, rng):
                     if m > 13 and n not in (0, 1, 255):
                         continue
                     yield case_line('d8.nthwd', y, m, w, n)
+                    if (w + n) % 3 == 0:
+                        yield case_line('d8.pnthwd', y, m, w, n)
 
     # ---- whole years elapsed
     bases = edge_days(2024)[::2] + edge_days(2023)[::4] + [[MIN_YEAR, 1], [MAX_YEAR, 365], [0, 60], [2000, 60]]
@@ -234,6 +239,34 @@ def cases(tier, rng):
     for m in range(0, 14):
         for y in around(lat_years + OTHER_YEARS + [I32_MIN, I32_MAX, MIN_YEAR - 400, MAX_YEAR + 400], (-1, 0, 1), lo=I32_MIN, hi=I32_MAX):
             yield case_line('d8.mdays', m, y)
+
+    # ---- operator month stepping on naive date-times reaching / leaving the range; Months accessor
+    for d in edge_days(MIN_YEAR)[::3] + edge_days(MAX_YEAR)[::3] + edge_days(2024)[::7]:
+        y = d[0]
+        s, f = rand_time(rng)
+        for target in (MIN_YEAR, MAX_YEAR):
+            for k in (-13, -12, -1, 0, 1, 11, 12, 13):
+                n = abs((target - y) * 12 + k)
+                if 0 <= n <= U32_MAX:
+                    yield case_line('d8.ndt.opaddm', d + [s, f], n)
+                    yield case_line('d8.ndt.opsubm', d + [s, f], n)
+    for n in NS:
+        yield case_line('d8.months_u32', n)
+    # ---- provided Datelike methods on naive date-times
+    for d in lat_edges + edges[len(lat_edges)::4] + [[y, 1] for y in range(-3, 4)]:
+        s, f = rand_time(rng)
+        yield case_line('d8.ndt.prov', d + [s, f])
+    # ---- equality / hashing of weeks: same week through another member day or another first weekday,
+    # neighbouring weeks, at both range ends
+    for d in full[::5] + ends:
+        y, o = d
+        for w1 in range(7):
+            for do in (0, 1, -1, 6, -6, 7, -7):
+                oo = o + do
+                if not 1 <= oo <= ylen(y):
+                    continue
+                yield case_line('d8.weq', d, w1, [y, oo], w1)
+                yield case_line('d8.weq', d, w1, [y, oo], (w1 + 1 + (o % 6)) % 7)
 
     # ---- thorough: every day of one 400-year cycle, a rotating slice of the argument lists per day
     if thorough:
@@ -288,5 +321,14 @@ def cases(tier, rng):
             sa, fa = rand_time(rng)
             sb, fb = rand_time(rng) if rng.random() < 0.5 else (sa, fa)
             yield case_line('d8.dtyears', d + [sa, fa, off], b + [sb, fb, off2])
-        else:
+        elif r < 0.97:
             yield case_line(rng.choice(['d8.quarter', 'd8.yce', 'd8.dim']), d)
+        elif r < 0.98:
+            s_, f_ = rand_time(rng)
+            if rng.random() < 0.6:
+                yield case_line(rng.choice(['d8.ndt.opaddm', 'd8.ndt.opsubm']), d + [s_, f_], rand_n(rng))
+            else:
+                yield case_line('d8.ndt.prov', d + [s_, f_])
+        else:
+            b = [d[0], min(max(d[1] + rng.randint(-8, 8), 1), ylen(d[0]))] if rng.random() < 0.8 else rand_date(rng)
+            yield case_line('d8.weq', d, rng.randint(0, 6), b, rng.randint(0, 6))
